@@ -158,6 +158,53 @@ func c13LegacyDump(m *c13Model, s, e uint32, sentinel byte) []byte {
 }
 
 // c13CheckState runs all per-state obligations on a world whose routing should equal m.
+// c13Read24 probes EaRead24_wrap(bank, addr): the three bytes lie at addr, addr+1, addr+2 wrapping
+// inside the bank; each must be read from the memory attached over its own address with the full
+// address (order of the three reads is not pinned); an unattached byte makes the call fail.
+func c13Read24(w *c13World, a uint32, owner func(uint32) int) (sig, what string) {
+	bank, addr := byte(a>>16), uint16(a)
+	var want []c13Access
+	var wantVal uint32
+	hole := false
+	for k := 0; k < 3; k++ {
+		aa := uint32(bank)<<16 | uint32(addr+uint16(k))
+		o := owner(aa)
+		if o == 0 {
+			hole = true
+			continue
+		}
+		want = append(want, c13Access{o, aa, false, 0})
+		wantVal |= uint32(c13Val(o, aa)) << (8 * k)
+	}
+	w.log = w.log[:0]
+	var got uint32
+	panicked := func() (p bool) {
+		defer func() {
+			if recover() != nil {
+				p = true
+			}
+		}()
+		got = w.b.EaRead24_wrap(bank, addr)
+		return false
+	}()
+	switch {
+	case hole && !panicked:
+		return "unexplained:unattached-read-does-not-fail", fmt.Sprintf("EaRead24_wrap($%02x,$%04x) touches a never-attached address but returned $%06x (memories saw %v)", bank, addr, got, w.log)
+	case hole:
+		return "", ""
+	case panicked:
+		return "unexplained:attached-read-panics", fmt.Sprintf("EaRead24_wrap($%02x,$%04x) panicked although all three bytes are attached", bank, addr)
+	}
+	seen := append([]c13Access(nil), w.log...)
+	sort.Slice(seen, func(i, j int) bool { return seen[i].Addr < seen[j].Addr })
+	sw := append([]c13Access(nil), want...)
+	sort.Slice(sw, func(i, j int) bool { return sw[i].Addr < sw[j].Addr })
+	if !c13LogEq(seen, sw) || got != wantVal {
+		return "unexplained:read-misrouted", fmt.Sprintf("EaRead24_wrap($%02x,$%04x) = $%06x: memories saw %v, want %v and value $%06x", bank, addr, got, w.log, want, wantVal)
+	}
+	return "", ""
+}
+
 func c13CheckState(w *c13World, m *c13Model, report func(sig, what, probe string)) (evals int64) {
 	win := m.win
 	// byte-wise routing
@@ -189,6 +236,22 @@ func c13CheckState(w *c13World, m *c13Model, report func(sig, what, probe string
 			if len(w.log) != 1 || w.log[0] != (c13Access{own, a, true, val}) {
 				report("unexplained:write-misrouted", fmt.Sprintf("write to $%06x should reach memory %d with address $%06x value $%02x; memories saw %v", a, own, a, val, w.log), fmt.Sprintf("write %06x", a))
 			}
+		}
+		if a == win.hi {
+			break
+		}
+	}
+	// 24-bit reads (in-bank wrap) starting at every window address
+	winOwner := func(a uint32) int {
+		if a < win.lo || a > win.hi {
+			return 0
+		}
+		return m.owner(a)
+	}
+	for a := win.lo; ; a++ {
+		evals++
+		if sig, what := c13Read24(w, a, winOwner); sig != "" {
+			report(sig, what, fmt.Sprintf("read24 %06x", a))
 		}
 		if a == win.hi {
 			break
@@ -389,6 +452,11 @@ func c13BigRun(c c13BigCase) (sig, what string) {
 			return "unexplained:write-misrouted", fmt.Sprintf("after %+v: write to $%06x should reach memory %d; panicked=%v, memories saw %v", c.Big, a, own, p, w.log)
 		}
 	}
+	for _, a := range []uint32{0x00FFFD, 0x00FFFE, 0x00FFFF, 0xFFFFFD, 0xFFFFFE, 0xFFFFFF, 0x7FFFFE, 0x7FFFFF, 0x800000, 0x00000D, 0x00000E, 0x00000F, 0xFF000E, 0xFF000F, 0xFFFFED, 0xFFFFEE, 0xFFFFEF, 0x00FFEE, 0x00FFEF} {
+		if sig, what := c13Read24(w, a, owner); sig != "" {
+			return sig, fmt.Sprintf("after %+v: %s", c.Big, what)
+		}
+	}
 	return "", ""
 }
 
@@ -417,6 +485,14 @@ func c13BigCases(depth, nm int) []c13BigCase {
 }
 
 func replayC13(raw json.RawMessage) (string, error) {
+	var ac c13AltCase
+	if json.Unmarshal(raw, &ac) == nil && ac.AltSegs > 0 {
+		sig, what := c13AltReplayCase(ac)
+		if sig == "" {
+			return "cpualt.Bus routing agrees with the model in this state", nil
+		}
+		return what, fmt.Errorf("%s", sig)
+	}
 	var bc c13BigCase
 	if json.Unmarshal(raw, &bc) == nil && len(bc.Big) > 0 {
 		sig, what := c13BigRun(bc)
@@ -554,13 +630,22 @@ func runC13(r *report.Run) {
 	})
 	states += int64(len(big))
 	transitions += nbig
+	// the second bus implementation (cpualt.Bus): routing clause only
+	altSegs := 3
+	if thorough {
+		altSegs = 4
+	}
+	as, at, ae := runC13Alt(r, altSegs, []uint32{0x000000, 0x00FFE0, 0xFFFFD0 - uint32(altSegs-3)*16})
+	states, transitions, evals = states+as, transitions+at, evals+ae
+	r.Set("cpualt_bus_states", as)
+	r.Set("cpualt_bus_transitions", at)
 	r.Set("large_range_sequences", int64(len(big)))
 	r.Set("states", states)
 	r.Set("transitions", transitions)
 	r.Set("traces_validated_against_impl", transitions)
 	r.Set("evaluations", evals)
 	r.Set("distinct_nontrivial", states)
-	r.Set("rule", "BFS to fixpoint over routing states (owner of each 16-byte window segment) for each window position; every transition is a real Attach on a fresh real Bus reached by replaying the shortest path; in every state every byte address of window+guards is read and written and EaDump is called for every start<=end; evaluations counts those per-state calls")
+	r.Set("rule", "BFS to fixpoint over routing states (owner of each 16-byte window segment) for each window position; every transition is a real Attach on a fresh real Bus reached by replaying the shortest path; in every state every byte address of window+guards is read and written, EaRead24_wrap is called from every window address (and across the bank wrap in the large-range scenarios) and EaDump is called for every start<=end; evaluations counts those per-state calls. The second bus implementation, cpualt.Bus, has no Attach result, alignment rule or EaDump and treats unattached cells as open bus, so only the routing clause applies to it: BFS to a fixpoint over (reader owner, writer owner) per window cell through real AttachReader/AttachWriter calls, every address probed through Read8/16/24, Write8/16/24, EaRead, EaWrite with logging closures (each byte must reach the most recently attached closure of its own cell with the full address)")
 	r.Set("bounds", map[string]interface{}{"window_segments": segs, "memories": nm, "window_bases": bases, "fixpoint": true})
 	r.Set("exhaustive", true)
 	r.Sample(c13Case{Base: 0x10, Segs: segs, Mems: nm, Path: []c13Attach{{1, 0x10, 0x4F}, {2, 0x20, 0x2F}}, Probe: "dump 000018 00002f"})
